@@ -22,6 +22,10 @@ type c15iCase struct {
 	OpA     string `json:"op_a"`
 	OpB     string `json:"op_b"`
 	Choices []int  `json:"choices"`
+	// Drops: how many of A's requests may be hit by a connection drop BEFORE they reach the server (the
+	// client reconnects at once under the same session and re-sends); each drop is one more option at
+	// a decision point
+	Drops int `json:"connection_drop_budget_for_a"`
 }
 
 type c15iState struct {
@@ -128,7 +132,16 @@ func c15iRun(r *vt.Run, c c15iCase) (points []c03Point, choices []int) {
 		}
 		var trace []string
 		step := 0
+		dropsLeft := c.Drops
 		w.Chooser = func(pend []*sim.Call) int {
+			var droppable []int // indexes of A's parked ZooKeeper requests
+			if dropsLeft > 0 {
+				for i, p := range pend {
+					if p.Proc == "A" && p.ZKReq != nil {
+						droppable = append(droppable, i)
+					}
+				}
+			}
 			var b strings.Builder
 			b.WriteString(w.ZK.Dump(nil))
 			for _, p := range pend {
@@ -138,17 +151,26 @@ func c15iRun(r *vt.Run, c c15iCase) (points []c03Point, choices []int) {
 					fmt.Fprintf(&b, "pend %s %s %s v%d;", p.Proc, p.ZKReq.Op, p.ZKReq.Path, p.ZKReq.Version)
 				}
 			}
-			fmt.Fprintf(&b, "done=%d errs=%v", 2-remaining, errs)
-			points = append(points, c03Point{len(pend), b.String()})
+			fmt.Fprintf(&b, "done=%d errs=%v drops=%d", 2-remaining, errs, dropsLeft)
+			nOpt := len(pend) + len(droppable)
+			points = append(points, c03Point{nOpt, b.String()})
 			ch := 0
 			if step < len(c.Choices) {
 				ch = c.Choices[step]
 			}
 			step++
-			if ch >= len(pend) {
-				r.T.Fatalf("replay divergence: choice %d of %d options at step %d", ch, len(pend), step-1)
+			if ch >= nOpt {
+				r.T.Fatalf("replay divergence: choice %d of %d options at step %d", ch, nOpt, step-1)
 			}
 			choices = append(choices, ch)
+			if ch >= len(pend) {
+				// grant A's request, but the connection drops before it reaches the server
+				i := droppable[ch-len(pend)]
+				dropsLeft--
+				w.Plan[len(w.Trace)] = sim.Deviation{Kind: sim.DevErr}
+				trace = append(trace, fmt.Sprintf("A:%s(lost: connection dropped)", pend[i].ZKReq.Op))
+				return i
+			}
 			p := pend[ch]
 			if p.ZKReq != nil {
 				trace = append(trace, fmt.Sprintf("%s:%s", p.Proc, p.ZKReq.Op))
@@ -226,7 +248,7 @@ func c15iExplore(r *vt.Run, base c15iCase, visited map[string]bool, prefix []int
 			return
 		}
 		visited[pts[i].hash] = true
-		r.State(fmt.Sprintf("c15i|%s|%s|%s|%s", base.Init, base.OpA, base.OpB, pts[i].hash))
+		r.State(fmt.Sprintf("c15i|%s|%s|%s|%d|%s", base.Init, base.OpA, base.OpB, base.Drops, pts[i].hash))
 		for alt := 1; alt < pts[i].nOpt; alt++ {
 			c15iExplore(r, base, visited, append(append([]int(nil), choices[:i]...), alt))
 		}
@@ -243,6 +265,9 @@ func checkC15I(r *vt.Run) {
 					continue
 				}
 				base := c15iCase{Init: init, OpA: a, OpB: b}
+				r.Crumb(base)
+				c15iExplore(r, base, map[string]bool{}, nil)
+				base.Drops = 1
 				r.Crumb(base)
 				c15iExplore(r, base, map[string]bool{}, nil)
 			}
